@@ -103,18 +103,25 @@ def visits_every_member(ctx, rep, R):
     ps = params(fi)
     rec = [c for c in own_calls(fi.node) if call_name(c) == fi.name]
     g = ctx.cfg(fi)
-    from .common import nodes_calling
+    from .common import nodes_calling, guard_literals
     for c in rec:
-        lits = path_literals(c, fi.node)
+        lits = guard_literals(ctx, fi, c)
         txt = [(norm(e), pos) for e, pos in lits]
         rn = nodes_calling(g, lambda x: x is c)
-        branch = [n for n in g.nodes if n.kind == 'test' and 'isinstance' in norm(n.ast) and
-                  'TestSuite' in norm(n.ast)]
+        # the test that decides "this is a suite" and the edge on which it holds
+        branch = []
+        for n in g.nodes:
+            if n.kind == 'test' and 'isinstance' in norm(n.ast) and 'TestSuite' in norm(n.ast):
+                e, pos = n.ast, True
+                while isinstance(e, ast.UnaryOp) and isinstance(e.op, ast.Not):
+                    e, pos = e.operand, not pos
+                if isinstance(e, ast.Call):
+                    branch.append((n, 'true' if pos else 'false'))
         loops = [n for n in g.nodes if n.kind == 'for' and is_name(n.ast, ps[0]) and
                  any(r in g.loop_nodes(n.id) for r in rn)]
-        ok = txt == [('isinstance(%s, unittest.TestSuite)' % ps[0], True)] and bool(branch) and bool(loops)
+        ok = txt == [('isinstance(%s, unittest.TestSuite)' % ps[0], True)] and len(branch) == 1 and bool(loops)
         if ok:
-            start = [d for d, k in g.succ[branch[0].id] if k == 'true']
+            start = [d for d, k in g.succ[branch[0][0].id] if k == branch[0][1]]
             okp, _ = g.every_path_passes(start, [g.exit], {loops[0].id}, include_start=True)
             body = [d for d, k in g.succ[loops[0].id] if k == 'true']
             r = g.reach(body, avoid=set(rn), include_start=True)
